@@ -90,6 +90,8 @@ func (r reply) String() string {
 		return rows + ":" + showState(r.state)
 	case "s":
 		return fmt.Sprintf("Es%04x", r.code)
+	case "p":
+		return fmt.Sprintf("Ep%04x", r.code)
 	}
 	return "E" + r.fail
 }
@@ -131,6 +133,13 @@ func parseScen(op string) scen {
 				panic("bad code")
 			}
 			r.fail, r.code = "s", int(c)
+		case strings.HasPrefix(p, "Ep"):
+			// the PREPARE of this fetch attempt is answered with an ERROR (tier psess)
+			c, err := strconv.ParseInt(p[2:], 16, 32)
+			if err != nil {
+				panic("bad code")
+			}
+			r.fail, r.code = "p", int(c)
 		case strings.HasPrefix(p, "E"):
 			r.fail = p[1:]
 		default:
